@@ -155,8 +155,7 @@ Theorem C14_trace_Ks_add_exact : forall n k ob k' ob', S n * S n <= length k -> 
 Proof. exact ks_grow_exact. Qed.
 Print Assumptions C14_trace_Ks_add_exact.
 (* ... then the column of the new particle is set to 1 exactly for encounter_map[1..encounter_N) and NOTHING
-   else is written: the rest of the new column and the whole new row keep what the block contained
-   (last clause; open finding trace_add_Ks_new_column_uninitialised) *)
+   else is written by this loop (last clause) *)
 Theorem C14_trace_Ks_add_mark : forall cnt i n m k ob k' ob', i + cnt <= length m ->
   (forall t, i <= t < i + cnt -> (0 <= nth t m 0 < Z.of_nat n)%Z) -> S n * S n <= length k ->
   ks_mark cnt i (S n) n m k ob = (k', ob') ->
@@ -165,6 +164,29 @@ Theorem C14_trace_Ks_add_mark : forall cnt i n m k ob k' ob', i + cnt <= length 
   (forall q, (forall t, i <= t < i + cnt -> q <> Z.to_nat (nth t m 0%Z) * S n + n) -> nth q k' 0%Z = nth q k 0%Z).
 Proof. exact ks_mark_spec. Qed.
 Print Assumptions C14_trace_Ks_add_mark.
+
+(* ... and the new column and row are zero-filled before the marking (since 0ed1db2): old entries untouched,
+   every written entry is 0, all 2(n+1) targets are 0, inside the block *)
+Theorem C14_trace_Ks_add_zero : forall cnt i n k ob k' ob', i + cnt = S n -> S n * S n <= length k ->
+  ks_zero cnt i (S n) n k ob = (k', ob') ->
+  ob' = ob /\ length k' = length k /\
+  (forall a b, a < n -> b < n -> nth (a * S n + b) k' 0%Z = nth (a * S n + b) k 0%Z) /\
+  (forall q, nth q k' 0%Z = nth q k 0%Z \/ nth q k' 0%Z = 0%Z) /\
+  (forall t, i <= t < i + cnt -> nth (t * S n + n) k' 0%Z = 0%Z /\ nth (n * S n + t) k' 0%Z = 0%Z).
+Proof. exact ks_zero_spec. Qed.
+Print Assumptions C14_trace_Ks_add_zero.
+
+(* REB_TRACE_MODE_FULL (pericentre step): removal and addition leave encounter_map, encounter_N and
+   encounter_N_active alone -- the unsigned counters cannot wrap around there any more *)
+Theorem C14_trace_full_remove_map_untouched : forall s h z keep s' h' r, kind h = ITrace -> hmode h = 3 ->
+  hremove s h z keep = (s', h', r) -> emap h' = emap h /\ eN h' = eN h /\ eNact h' = eNact h.
+Proof. exact trace_full_remove_map_untouched. Qed.
+Print Assumptions C14_trace_full_remove_map_untouched.
+Theorem C14_trace_full_add_map_untouched : forall s h p d s' h', kind h = ITrace -> hmode h = 3 ->
+  hadd s h p d = (s', h') ->
+  eN h' = eN h /\ eNact h' = eNact h /\ firstn (length (emap h)) (emap h') = emap h.
+Proof. exact trace_full_add_map_untouched. Qed.
+Print Assumptions C14_trace_full_add_map_untouched.
 
 (* The hybrid arrays follow N through the encounter step.  ri_*.N_allocated (= length of encounter_map) is also
    the size of particles_backup / particles_backup_kepler (reallocated together), current_Ks has
@@ -189,11 +211,11 @@ Theorem C14_callback_once : forall s o s' r, wf s ->
   step s o = (s', r) -> step_cb s o = cb_spec (abs s) r.
 Proof. exact callback_once. Qed.
 Print Assumptions C14_callback_once.
-(* remove-all calls no callback: "once per removed particle" is refuted there (open finding
-   remove_all_tree_and_callback) *)
-Theorem C14_callback_remove_all_refuted : exists s, wf s /\ aps (abs s) <> [] /\ step_cb s RemoveAll = [].
-Proof. exact callback_remove_all_refuted. Qed.
-Print Assumptions C14_callback_remove_all_refuted.
+(* remove-all calls it once per removed particle, in index order (and deletes the tree: RemoveAll leaves
+   atree = false in the specification, see aspec) *)
+Theorem C14_callback_remove_all : forall s, step_cb s RemoveAll = aps (abs s).
+Proof. exact callback_remove_all. Qed.
+Print Assumptions C14_callback_remove_all.
 
 (* ---- a step whose part1 failed must not touch integrator arrays sized for an earlier N: coq/C14/StepGuard.v
    (abstract model: p_jh has N_allocated records, init fails before resizing or resizes to N, every
